@@ -19,8 +19,9 @@ pub enum FT {
     I16,
     I32,
     I24,
+    U8,
 }
-pub const FTS: [FT; 6] = [FT::F64, FT::F32, FT::F64x2, FT::I16, FT::I32, FT::I24];
+pub const FTS: [FT; 7] = [FT::F64, FT::F32, FT::F64x2, FT::I16, FT::I32, FT::I24, FT::U8];
 
 #[derive(Clone, Copy, Debug, PartialEq, Eq, Serialize, Deserialize)]
 pub enum Mode {
@@ -141,6 +142,20 @@ impl SF for i32 {
     }
     fn amps(self) -> Vec<f64> {
         vec![self as f64 / 2147483648.0]
+    }
+}
+impl SF for u8 {
+    const INT: bool = true;
+    const EPS: f64 = 1.0 / 128.0;
+    const LSB: f64 = 1.0 / 128.0;
+    fn mk(v: f64, _: u64) -> Self {
+        (128.0 + (v * 0.3 * 128.0).trunc()) as u8
+    }
+    fn mk_full(v: f64, _: u64) -> Self {
+        (128.0 + (v * 128.0).trunc().clamp(-128.0, 127.0)) as u8
+    }
+    fn amps(self) -> Vec<f64> {
+        vec![(self as f64 - 128.0) / 128.0]
     }
 }
 impl SF for dasp_sample::I24 {
@@ -332,6 +347,7 @@ pub fn check(c: &Case, st: &mut Stats) -> CheckResult {
         FT::I16 => run_typed::<i16>(c, st),
         FT::I32 => run_typed::<i32>(c, st),
         FT::I24 => run_typed::<dasp_sample::I24>(c, st),
+        FT::U8 => run_typed::<u8>(c, st),
     }
 }
 
@@ -346,7 +362,7 @@ fn x_strategy() -> impl Strategy<Value = f64> {
 }
 
 pub fn case_strategy(max_depth: usize) -> impl Strategy<Value = Case> {
-    (0usize..6, prop_oneof![2 => 1usize..=4, 2 => 1usize..=max_depth], 0usize..5).prop_flat_map(move |(f, depth, m)| {
+    (0usize..FTS.len(), prop_oneof![2 => 1usize..=4, 2 => 1usize..=max_depth], 0usize..5).prop_flat_map(move |(f, depth, m)| {
         let mode = [Mode::Transparent, Mode::Linearity, Mode::Constant, Mode::Reset, Mode::RandomRatio][m];
         let val = prop_oneof![4 => (-1.0f64..1.0), 1 => (-16i32..=16).prop_map(|k| k as f64 / 16.0)];
         (
